@@ -84,6 +84,7 @@ class C05(engine.Property):
         "interleavings are sampled, not enumerated",
     ]
     expected_probes = [
+        "links-of-a-vertex-change-while-a-lazy-traversal-is-suspended-inside-its-expansion",
         "read-mutate-read-on-same-vertex",
         "mutation-in-flag-off-window-then-cached-read",
         "flag-flip-with-live-generators",
@@ -217,6 +218,11 @@ class C05(engine.Property):
                 st.queue.extend(ops[1:])
                 return ops[0]
         # generator tasks
+        if cfg["ntasks"] and len(st.tasks) < cfg["ntasks"] and rng.random() < cfg["p_task"] * 0.3:
+            ops = self._suspended_expansion(rng, cfg, st)
+            if ops:
+                st.queue.extend(ops[1:])
+                return ops[0]
         if cfg["ntasks"] and rng.random() < cfg["p_task"]:
             op = self._task_op(rng, cfg, st)
             if op is not None:
@@ -433,6 +439,35 @@ class C05(engine.Property):
         if c == "far_remove_from_link" and other is not None:
             return {"op": "remove_from_link", "v": other, "e": e}
         return {"op": "remove_from_link", "v": v, "e": e}
+
+    def _suspended_expansion(self, rng, cfg, st):
+        """
+        A lazy traversal is started at a vertex with several neighbours and
+        advanced just far enough to be suspended while that vertex is being
+        expanded; the vertex's links then change, the traversal goes on, and
+        the vertex is asked again.
+        """
+        view = st.view
+        hubs = [v for v in view.vertices() if len(view.links_of(v)) >= 2]
+        if not hubs:
+            return None
+        hub = rng.choice(hubs)
+        t = st.namer.new("t")
+        spawn = {"op": "spawn", "t": t, "fn": rng.choice(O.GEN_TRAVS), "s": hub, "u": None, "unk": "nb", "dir": rng.choice(["any", "any", "fwd"])}
+        mut = self._mutation_near(rng, cfg, st, hub)
+        if mut is None:
+            return None
+        st.stats["probe:links-of-a-vertex-change-while-a-lazy-traversal-is-suspended-inside-its-expansion"] += 1
+        read = {"op": "neighbors", "v": hub, "unk": "nb", "dir": spawn["dir"]}
+        return [
+            dict(read),
+            spawn,
+            {"op": "step", "t": t, "n": rng.choice([1, 2, 2, 3])},
+            mut,
+            {"op": "step", "t": t, "n": rng.choice([1, 2, 8])},
+            dict(read),
+            {"op": "trav", "fn": rng.choice(["bft", "dft_recursive", "dft_iterative"]), "s": hub, "u": None, "unk": "nb", "dir": spawn["dir"]},
+        ]
 
     def _task_op(self, rng, cfg, st):
         r = rng.random()
